@@ -106,11 +106,12 @@ def fresh(prefix, sort):
 
 
 class State:
-    __slots__ = ('heap', 'pc', 'events', 'counters', 'notes')
+    __slots__ = ('heap', 'pc', 'events', 'counters', 'notes', 'facts')
 
     def __init__(self):
         self.heap = {}
         self.pc = []
+        self.facts = []  # unconditional truths about the inputs (hash axioms, sampled-state invariants): kept by joins
         self.events = []
         self.counters = {}
         self.notes = {}
@@ -122,6 +123,7 @@ class State:
         s.events = list(self.events)
         s.counters = dict(self.counters)
         s.notes = dict(self.notes)
+        s.facts = list(self.facts)
         return s
 
     def alloc(self, v=UNINIT):
@@ -132,6 +134,12 @@ class State:
     def assume(self, cond):
         if not z3.is_true(cond):
             self.pc.append(cond)
+
+    def assume_fact(self, cond):
+        """a fact about the symbolic inputs that holds on every path (never path-dependent)"""
+        if not z3.is_true(cond):
+            self.pc.append(cond)
+            self.facts.append(cond)
 
     def count(self, key, n=1):
         self.counters[key] = self.counters.get(key, 0) + n
@@ -217,6 +225,13 @@ def val_eq(a, b):
                 dv = a._discof(name) if hasattr(a, '_discof') else None
                 conj.append(z3.Implies(_is_variant(a, name), z3.And([val_eq(x, y) for x, y in zip(pa, pb)])))
         return z3.And(conj)
+    if isinstance(a, Opaque) and a.kind == 'SymBytes' and isinstance(b, Agg):
+        from .shapes import concrete_bytes_as_sym
+        b2 = concrete_bytes_as_sym(b)
+        if b2 is not None:
+            return val_eq(a, b2)
+    if isinstance(b, Opaque) and b.kind == 'SymBytes' and isinstance(a, Agg):
+        return val_eq(b, a)
     if isinstance(a, Opaque) and isinstance(b, Opaque):
         if a.kind != b.kind:
             return z3.BoolVal(False)
@@ -295,6 +310,16 @@ def ite_val(c, a, b):
         return b
     if b is UNINIT:
         return a
+    if isinstance(a, Opaque) and a.kind == 'SymBytes' and isinstance(b, Agg):
+        from .shapes import concrete_bytes_as_sym
+        b2 = concrete_bytes_as_sym(b)
+        if b2 is not None:
+            return ite_val(c, a, b2)
+    if isinstance(b, Opaque) and b.kind == 'SymBytes' and isinstance(a, Agg):
+        from .shapes import concrete_bytes_as_sym
+        a2 = concrete_bytes_as_sym(a)
+        if a2 is not None:
+            return ite_val(c, a2, b)
     if isinstance(a, Ptr) and isinstance(b, Ptr) and a.cell == b.cell and a.path == b.path:
         return a
     if isinstance(a, (z3.ExprRef,)) and isinstance(b, (z3.ExprRef,)):
@@ -402,6 +427,8 @@ class Interp:
             cur.append(c)
             i += 1
         segs.append(''.join(cur))
+        while len(segs) > 1 and segs[-1].startswith('<') and not segs[-1].startswith('<impl at'):
+            segs.pop()  # trailing turbofish, e.g. `weight::<impl Fn(&[u8]) -> u128>`
         # drop turbofish segments like `<C>`
         segs = [s for s in segs if not (s.startswith('<') and s.endswith('>') and ' as ' not in s and 'impl' not in s)]
         return segs
@@ -485,19 +512,40 @@ class Interp:
 
     # ---- solver -------------------------------------------------------------
     def check_sat(self, pc, extra=None, timeout=None):
-        s = z3.Solver()
-        s.set('timeout', timeout or self.timeout)
-        for c in pc:
+        """incremental: one solver whose assertion stack mirrors the current path-condition prefix"""
+        t0 = time.time()
+        if self._inc is None:
+            self._inc = z3.Solver()
+            self._inc_stack = []
+        s = self._inc
+        stack = self._inc_stack
+        n = 0
+        while n < len(stack) and n < len(pc) and stack[n] is pc[n]:
+            n += 1
+        if n < len(stack):
+            s.pop(len(stack) - n)
+            del stack[n:]
+        for c in pc[n:]:
+            s.push()
             s.add(c)
+            stack.append(c)
+        s.set('timeout', timeout or self.timeout)
+        s.push()
         if extra is not None:
             s.add(extra)
-        t0 = time.time()
         r = s.check()
+        reason = s.reason_unknown() if r == z3.unknown else ''
+        s.pop()
         self.stats['solver_calls'] += 1
-        self.stats['solver_s'] += time.time() - t0
+        dt = time.time() - t0
+        self.stats['solver_s'] += dt
+        if self.trace_solver:
+            self.trace_solver.append((round(dt, 3), len(pc), str(r), str(extra)[:100].replace('\n', ' ')))
         if r == z3.unknown:
-            raise Inconclusive('solver returned unknown (%s) during path exploration' % s.reason_unknown())
+            raise Inconclusive('solver returned unknown (%s) during path exploration' % reason)
         return r == z3.sat
+
+    _inc = None
 
     def feasible(self, st, cond):
         cond = simp(to_bool(cond))
@@ -505,7 +553,20 @@ class Interp:
             return True
         if z3.is_false(cond):
             return False
-        return self.check_sat(st.pc, cond)
+        if self.lazy:
+            return True
+        try:
+            return self.check_sat(st.pc, cond, timeout=self.feas_timeout)
+        except Inconclusive:
+            # undecided within the (short) feasibility budget: keep the branch.  This only over-approximates the
+            # set of explored paths; obligations re-decide reachability with the full budget.
+            self.stats['feas_unknown'] = self.stats.get('feas_unknown', 0) + 1
+            return True
+
+    feas_timeout = 400
+
+    trace_solver = None
+    lazy = False  # lazy mode: branches are pruned only syntactically; infeasible paths carry an unsat pc
 
     # ---- memory -------------------------------------------------------------
     def read_path(self, v, path, st=None):
@@ -869,6 +930,9 @@ class Interp:
             v = self.load(st, p)
             if isinstance(v, Agg):
                 return bv(len(v.fields), 64)
+            if isinstance(v, Opaque) and v.kind in ('Ser', 'SymBytes'):
+                from . import models
+                return models.bytes_len(self, st, v)
             if isinstance(v, Opaque) and hasattr(v.data, 'length'):
                 return v.data.length()
         raise Unsupported('PtrMetadata of %r' % (p,))
@@ -1049,6 +1113,8 @@ class Interp:
         self.functions_encoded.add('%s::%s' % (fn.crate, fn.name))
         if len(args) != fn.nparams:
             raise Unsupported('arity mismatch calling %s: %d args' % (fn.name, len(args)))
+        st0_pc_len = len(st.pc)
+        st0_cells = set(st.heap.keys())
         frame = {}
         for l in fn.local_types:
             frame[l] = st.alloc(UNINIT)
@@ -1069,7 +1135,12 @@ class Interp:
                 blk = fn.blocks[bid]
                 self.stats['blocks'] += 1
                 for s in blk.stmts:
-                    self.exec_stmt(cst, frame, fn, s)
+                    try:
+                        self.exec_stmt(cst, frame, fn, s)
+                    except Unsupported as e:
+                        if ' [at ' not in str(e):
+                            raise Unsupported('%s [at %s bb%d: %s]' % (e, fn.name[-60:], bid, s.text[:120]))
+                        raise
                 t = blk.term
                 k = t.kind
                 if k == 'goto':
@@ -1150,7 +1221,142 @@ class Interp:
                     continue
                 raise Unsupported('terminator ' + k)
         self.stats['paths'] += len(results)
+        if self.join_rx is not None and len(results) > 1 and self.join_rx.search(fn.name):
+            results = self.join_returns(st0_pc_len, st0_cells, results)
         return results
+
+    join_rx = None  # functions whose returning paths are joined into one state (state merging)
+
+    def join_returns(self, base_len, base_cells, results):
+        rets = [(s, r) for s, r in results if isinstance(r, Ret)]
+        others = [(s, r) for s, r in results if not isinstance(r, Ret)]
+        if len(rets) < 2:
+            return results
+        try:
+            merged = self._join(base_len, base_cells, rets)
+        except Unsupported as e:
+            self.stats['join_failed'] = self.stats.get('join_failed', 0) + 1
+            return results
+        self.stats['joined'] = self.stats.get('joined', 0) + len(rets) - 1
+        return others + [merged]
+
+    def _reachable_cells(self, st, v, acc):
+        if isinstance(v, Ptr):
+            if v.cell not in acc:
+                acc.add(v.cell)
+                self._reachable_cells(st, st.heap.get(v.cell), acc)
+        elif isinstance(v, Agg):
+            for f in v.fields:
+                self._reachable_cells(st, f, acc)
+        elif isinstance(v, EnumV):
+            for pl in v.payloads.values():
+                for f in pl:
+                    self._reachable_cells(st, f, acc)
+        elif isinstance(v, Opaque):
+            d = v.data
+            if isinstance(d, tuple):
+                for f in d:
+                    self._reachable_cells(st, f, acc)
+            elif hasattr(d, 'reach'):
+                for f in d.reach():
+                    self._reachable_cells(st, f, acc)
+
+    def _join(self, base_len, base_cells, rets):
+        conds = []
+        for s, r in rets:
+            suffix = s.pc[base_len:]
+            conds.append(simp(z3.And(suffix)) if suffix else z3.BoolVal(True))
+        first = rets[0][0]
+        new = first.fork()
+        new.pc = first.pc[:base_len] + [simp(z3.Or(conds))]
+        seen = set(id(c) for c in new.pc)
+        facts = list(first.facts)
+        fseen = set(id(c) for c in facts)
+        for s, _ in rets:
+            for c in s.facts:
+                if id(c) not in fseen:
+                    fseen.add(id(c))
+                    facts.append(c)
+        for c in facts:
+            if id(c) not in seen:
+                seen.add(id(c))
+                new.pc.append(c)
+        new.facts = facts
+        # cells to keep: those alive at entry + those reachable from a returned value / from a kept cell
+        keep = set(base_cells)
+        for s, r in rets:
+            acc = set()
+            self._reachable_cells(s, r.v, acc)
+            for c in list(base_cells):
+                self._reachable_cells(s, s.heap.get(c), acc)
+            keep |= acc
+        heap = {}
+        for c in keep:
+            vals = [s.heap.get(c, UNINIT) for s, _ in rets]
+            v = vals[-1]
+            for cond, vi in zip(reversed(conds[:-1]), reversed(vals[:-1])):
+                if vi is not v:
+                    v = ite_val(cond, vi, v)
+            heap[c] = v
+        new.heap = heap
+        val = rets[-1][1].v
+        for cond, (s, r) in zip(reversed(conds[:-1]), reversed(rets[:-1])):
+            if r.v is not val:
+                val = ite_val(cond, r.v, val)
+        # notes: union (base-read tables are append-only lists); entries sampled on different branches are tied
+        # together by the pairwise axioms they never met
+        notes = {}
+        cross = []
+        same = []
+        for s, _ in rets:
+            for k, v in s.notes.items():
+                if k not in notes:
+                    notes[k] = v
+                elif isinstance(v, tuple) and isinstance(notes[k], tuple) and v is not notes[k]:
+                    cur = list(notes[k])
+                    for item in v:
+                        if any(item is x for x in cur):
+                            continue
+                        dup = None
+                        if isinstance(item, tuple) and len(item) >= 2 and hasattr(item[0], 'eq'):
+                            for x in cur:
+                                if isinstance(x, tuple) and len(x) >= 2 and hasattr(x[0], 'eq') and item[0].eq(x[0]):
+                                    dup = x
+                                    break
+                        if dup is not None:
+                            # the same key sampled independently on two branches: both samples denote one entry
+                            same.append((k, dup, item))
+                            continue
+                        if k.startswith('base:'):
+                            for x in cur:
+                                if not any(x is y for y in v):
+                                    cross.append((k[5:], x, item))
+                        cur.append(item)
+                    notes[k] = tuple(cur)
+        new.notes = notes
+        for k, a, b in same:
+            if k.startswith('base:'):
+                new.assume_fact(a[1].data.sym_eq(b[1].data))
+            elif k.startswith('deser:'):
+                new.assume_fact(z3.And(a[1] == b[1], val_eq(a[2], b[2])))
+        if cross:
+            from . import models as _models
+            for base, r1, r2 in cross:
+                _models.pair_axioms(self, new, base, r1, r2)
+        # events: common prefix, then per-branch tails guarded by their condition
+        evs = [s.events for s, _ in rets]
+        n = 0
+        while all(len(e) > n for e in evs) and all(e[n] is evs[0][n] for e in evs):
+            n += 1
+        new.events = list(evs[0][:n])
+        for cond, e in zip(conds, evs):
+            for item in e[n:]:
+                new.events.append(('when', cond, item))
+        new.counters = {}
+        for s, _ in rets:
+            for k, v in s.counters.items():
+                new.counters[k] = max(new.counters.get(k, 0), v)
+        return (new, Ret(val))
 
     def switch_targets(self, st, v, data):
         """list of (condition, bb) that are feasible"""
